@@ -102,6 +102,19 @@ def random_font_token(rng):
     slot = rng.choice([b'77', b'43', b'0', b'+9', b'', b'x', b'99'])
     return ('FONT-random', font_dcs(slot, b'', bytes(pay)))
 
+def random_string_token(rng):
+    """OSC / DCS / APS string with a random payload: 7-bit and 8-bit bytes, field separators, the known prefixes"""
+    intro = rng.choice([b']', b']', b']', b'P', b'_'])
+    parts = []
+    for _ in range(rng.randint(0, 5)):
+        r = rng.random()
+        if r < 0.3: parts.append(rng.choice([b'8', b'4', b'8;', b'8;;', b'4;1', b'rgb:aa/bb/cc', b'id=x', b'http://a', b'CTerm:Font:', b'1;0;1!z', b'q']))
+        elif r < 0.6: parts.append(bytes(rng.choice([0xe9, 0x80, 0xff, 0xc3, 0xa9, 0x9b, 0x7f, 0x20, 0x3a]) for _ in range(rng.randint(1, 4))))
+        else: parts.append(bytes(rng.randrange(0x20, 0x100) for _ in range(rng.randint(0, 6))))
+    body = b';'.join(parts) if rng.random() < 0.7 else b''.join(parts)
+    body = body.replace(b'\x1b', b'')
+    return ('STR-random', E + intro + body + (E + b'\\' if rng.random() < 0.9 else b'\x07'))
+
 def extra_tokens(music):
     t = FONT_TOKENS + FONTSEL_TOKENS + [('DCS-macro', E + b'P1;0;0!zAB\x0a' + E + b'\\'), ('DCS-macro-hex', E + b'P2;0;1!z41!3;4243;0A' + E + b'\\'), ('DCS-macro-bad', E + b'P3;0;1!z4G' + E + b'\\'),
          ('DCS-macro-clr', E + b'P4;1;0!zX' + E + b'\\'), ('DCS-macro-p3', E + b'P4;0;7!zX' + E + b'\\'), ('DCS-nonum', E + b'P!zX' + E + b'\\'),
@@ -132,7 +145,7 @@ def gen_stream(rng, emu, w, h, music):
         return sanitize(tg.malformed_stream(rng, emu, rng.choice([20, 200, 1500, 4096]), music != 0)), ['malformed']
     toks = tg.alphabet(emu, w, h)
     if emu in tg.ANSI_BASED:
-        toks = toks + tg.RESIZE + extra_tokens(music & 3) * 2 + [random_font_token(rng) for _ in range(12)]
+        toks = toks + tg.RESIZE + extra_tokens(music & 3) * 2 + [random_font_token(rng) for _ in range(12)] + [random_string_token(rng) for _ in range(16)]
     toks = [t for t in toks if b'9999' not in t[1] or t[0].split('(')[0] in ('CUD', 'CUF', 'CUB', 'CNL', 'CPL', 'CHA', 'VPA', 'VPR', 'HPA', 'HPR', 'HPB', 'ECH', 'CUP', 'DECSTBM', 'CSR', 'DECSLRM', 'SSM')]
     b, names = tg.random_stream(rng, emu, w, h, rng.choice([3, 10, 40, 150]), toks=toks)
     if rng.random() < 0.3: b = b'\n' * (h + rng.choice([1, 30])) + b
